@@ -883,15 +883,27 @@ def s_sqrt(a):
                         break
             cn_, fn_ = sp.factor_list(nq_)
             cd_, fd_ = sp.factor_list(dq_)
-            if all(m_ % 2 == 0 for _f, m_ in fn_ + fd_) and (fn_ or fd_):
-                c0_ = sp.sqrt(sp.Rational(cn_) / sp.Rational(cd_))
-                if c0_.is_Rational:
-                    num_ = Sym(c0_)
-                    for f_, m_ in fn_:
-                        num_ = num_ * s_abs(Sym(f_)) ** (m_ // 2) if m_ // 2 != 1 else num_ * s_abs(Sym(f_))
-                    for f_, m_ in fd_:
-                        num_ = num_ / (s_abs(Sym(f_)) ** (m_ // 2) if m_ // 2 != 1 else s_abs(Sym(f_)))
-                    return num_
+            if any(m_ >= 2 for _f, m_ in fn_ + fd_):
+                # sqrt(c * prod f^m / prod g^m') = prod |f|^(m//2) / prod |g|^(m'//2) * sqrt(c * prod f^(m%2) / prod g^(m'%2))
+                out_ = Sym(1)
+                rest_ = sp.Rational(cn_) / sp.Rational(cd_)
+                for f_, m_ in fn_:
+                    if m_ // 2:
+                        out_ = out_ * (s_abs(Sym(f_)) ** (m_ // 2) if m_ // 2 != 1 else s_abs(Sym(f_)))
+                    if m_ % 2:
+                        rest_ = rest_ * f_
+                for f_, m_ in fd_:
+                    if m_ // 2:
+                        out_ = out_ / (s_abs(Sym(f_)) ** (m_ // 2) if m_ // 2 != 1 else s_abs(Sym(f_)))
+                    if m_ % 2:
+                        rest_ = rest_ / f_
+                if rest_ == 1:
+                    return out_
+                p.sqrt_factor = False
+                try:
+                    return out_ * s_sqrt(Sym(rest_))
+                finally:
+                    p.sqrt_factor = True
         except Unsupported:
             raise
         except Infeasible:
